@@ -139,8 +139,11 @@ def gen_config(rng, d):
         execu["variable_values"] = pick_list(rng, FALSY + SCALARS, 2)
     raw = {"executors": {"E": execu}, "benchmark_suites": {"S": suite},
            "experiments": {"X": {"executions": [{"E": {"suites": ["S"]}}]}}}
-    if rng.random() < 0.3:
+    if rng.random() < 0.4:
         raw["experiments"]["Y"] = {"executions": [{"E": {"suites": ["S"]}}], "description": "second"}
+        if rng.random() < 0.6:
+            # the same runs recorded in a second data file: loaded once per file, counted once
+            raw["experiments"]["Y"]["data_file"] = os.path.join(d, "second.data")
     warm = rng.choice([0, 0, 1, 2])
     raw["runs"] = {"warmup": warm}
     if rng.random() < 0.3:
